@@ -190,27 +190,75 @@ class Anchors:
 _ANCHORS = {}
 
 
+STD_COLLECTIONS = ("std::collections::hash::set::HashSet<", "alloc::collections::btree::set::BTreeSet<", "alloc::vec::Vec<",
+                   "alloc::collections::vec_deque::VecDeque<", "indexmap::set::IndexSet<")
+
+
+def _elem(t):
+    """first generic argument of a collection type string"""
+    i = t.find("<")
+    if i < 0:
+        return ""
+    depth, out = 0, []
+    for ch in t[i + 1:]:
+        if ch == "<":
+            depth += 1
+        elif ch == ">":
+            if depth == 0:
+                break
+            depth -= 1
+        elif ch == "," and depth == 0:
+            break
+        out.append(ch)
+    return "".join(out).strip()
+
+
 def anchors(P):
-    """The traversal, by role: the function of the semantics crate that receives the accumulated definitions as
-    `&mut Vec<ExecutableDefinition>` together with a `&mut` collection of `PathBuf` (the visited set, whatever its type);
-    the entry point is its unique other caller."""
+    """The traversal, by role: the directly recursive function of the semantics crate that (with its helpers) resolves import
+    paths (`resolve_relative_path`) and asks the `OperationResolver` for the file.  State shared between its recursion levels is
+    either a `&mut` parameter or a field of `self` (context struct): the *visited collection* is the shared std collection (of
+    any element type) that the traversal tests/extends, the *accumulated definitions* the shared `Vec<ExecutableDefinition>`.
+    The entry point is the unique caller from outside the traversal."""
     if id(P) in _ANCHORS:
         return _ANCHORS[id(P)]
     cands = []
     for f in P.fns.values():
-        if not f.path.startswith(SEM) or "::tests::" in f.path or f.kind not in ("Fn", "AssocFn"):
+        if not f.path.startswith(SEM) or "::tests::" in f.path or f.kind not in ("Fn", "AssocFn") or f.derived:
             continue
-        di = [i for i, t in enumerate(f.sig_inputs) if t.startswith("&mut ") and "Vec<" + EXDEF in t]
-        vi = [i for i, t in enumerate(f.sig_inputs) if t.startswith("&mut ") and "std::path::PathBuf" in t and i not in di]
-        if len(di) == 1 and len(vi) == 1:
-            cands.append((f, vi[0], di[0]))
+        if f.path not in P.callees_of(f)[0]:
+            continue
+        names = {call_name(n) or "" for n in inlined(P, f).walk() if n.get("k") in ("Call", "MethodCall")}
+        if any(c.endswith("OperationResolver::resolve") for c in names) and any(c.endswith("resolve_relative_path") for c in names):
+            cands.append(f)
     if len(cands) != 1:
-        raise AnchorMissing("import traversal (fn taking a `&mut` collection of PathBuf and `&mut Vec<ExecutableDefinition>`): %d candidates"
-                            % len(cands))
+        raise AnchorMissing("import traversal (directly recursive fn of the semantics crate calling resolve_relative_path and "
+                            "OperationResolver::resolve): %d candidates" % len(cands))
     A = Anchors()
-    A.rec, A.vis_idx, A.defs_idx = cands[0]
-    rec = A.rec
-    A.vt = peel_ty(rec.sig_inputs[A.vis_idx])
+    rec = A.rec = cands[0]
+    A.T = inlined(P, rec)
+    A.pv = Prov(A.T)
+    A.import_adt = sem_adt(P, "Import").path
+    A.not_rec = lambda g: g.path != rec.path     # kept alive here: templates.inlined memoises on id(pred)
+    # shared state: `&mut` parameters and the fields of `self`
+    shared = []        # (type, atom that denotes it)
+    for i, p in enumerate(A.T.params):
+        t = rec.sig_inputs[i] if i < len(rec.sig_inputs) else ""
+        if t.startswith("&mut ") and p.get("k") == "Binding" and A.pv.params.get(p.get("local")):
+            shared.append((peel_ty(t).strip(), ("param", A.pv.params[p["local"]])))
+    self_adt = P.adts.get(rec.self_adt) if rec.self_adt else None
+    if self_adt is not None and self_adt.kind == "Struct":
+        for fname, ft in self_adt.field_types().items():
+            shared.append((peel_ty(ft).strip(), ("field", self_adt.path, fname)))
+    A.defs_atoms = {a for t, a in shared if t.startswith("alloc::vec::Vec<" + EXDEF)}
+    if not A.defs_atoms:
+        raise AnchorMissing("accumulated definitions (a `&mut Vec<ExecutableDefinition>` parameter or field of self) of %s" % rec.path)
+    colls = {t for t, a in shared if t.startswith(STD_COLLECTIONS) and EXDEF not in t}
+    colls |= {"[%s]" % _elem(t) for t in colls if t.startswith(("alloc::vec::Vec<", "alloc::collections::vec_deque::VecDeque<"))}
+    A.vts = {peel_ty(n.get("recv_ty")).strip() for n in A.T.walk() if n.get("k") == "MethodCall" and n["method"] in TESTS + MARKS
+             and peel_ty(n.get("recv_ty")).strip() in colls}
+    if not A.vts:
+        raise AnchorMissing("visited collection (a shared std collection that %s tests / extends): none among %s" % (rec.path, sorted(colls)))
+    A.key_types = {_elem(t) if "<" in t else t.strip("[]") for t in A.vts}
     entries = [f for f in P.fns.values() if f.path.startswith(SEM) and rec.path in P.callees_of(f)[0] and f.path != rec.path
                and "::tests::" not in f.path]
     # a helper between the entry and the traversal is fine: climb to the callers that are not themselves called by the traversal
@@ -219,25 +267,22 @@ def anchors(P):
     if len(entries) != 1:
         raise AnchorMissing("entry point calling %s: %s" % (rec.path, [e.path for e in entries]))
     A.entry = entries[0]
-    A.T = inlined(P, rec)
-    A.pv = Prov(A.T)
-    A.import_adt = sem_adt(P, "Import").path
-    A.not_rec = lambda g: g.path != rec.path     # kept alive here: templates.inlined memoises on id(pred)
-
-    def pname(i):
-        p = A.T.params[i]
-        return A.pv.params.get(p.get("local")) if p.get("k") == "Binding" else None
-    A.vis_name, A.defs_name = pname(A.vis_idx), pname(A.defs_idx)
-    # parameters that carry the importing file: every binding of a parameter whose type mentions `Path` (not the visited set)
+    # parameters that carry the importing file: every binding of a parameter whose type mentions `Path` (not shared state)
     A.importer = set()
     for i, p in enumerate(A.T.params):
-        if i in (A.vis_idx, A.defs_idx) or "std::path::Path" not in rec.sig_inputs[i]:
+        t = rec.sig_inputs[i] if i < len(rec.sig_inputs) else ""
+        if t.startswith("&mut ") or "std::path::Path" not in t:
             continue
         for b in subnodes(p):
             if b.get("k") == "Binding" and A.pv.params.get(b["local"]):
                 A.importer.add(A.pv.params[b["local"]])
     _ANCHORS[id(P)] = A
     return A
+
+
+def has_defs(A, atoms):
+    """does the value derive from the accumulated definitions (parameter or field of the context struct)"""
+    return any(x in atoms for x in A.defs_atoms)
 
 
 def sem_adt(P, name):
@@ -262,10 +307,7 @@ def is_vis(A, n, methods=None):
     """is `n` a method call on the visited collection (by receiver type; a Vec is tested through its slice)"""
     if n.get("k") != "MethodCall" or (methods is not None and n["method"] not in methods):
         return False
-    t = peel_ty(n.get("recv_ty"))
-    if t == A.vt:
-        return True
-    return A.vt.startswith(("alloc::vec::Vec<", "alloc::collections::vec_deque::VecDeque<")) and t == "[std::path::PathBuf]"
+    return peel_ty(n.get("recv_ty")).strip() in A.vts
 
 
 def mir_blocks(mq, hir_calls):
@@ -402,7 +444,7 @@ def r13a(P, R):
             else:
                 R.violated("R13-a", key, msg_bad, loc=rec.loc())
     # the visited-check actually skips: at the recursive call the file is known to be fresh
-    calls = [i for i, (n, _) in enumerate(T.nodes()) if n.get("k") == "Call" and call_name(n) == rec.path]
+    calls = [i for i, (n, _) in enumerate(T.nodes()) if n.get("k") in ("Call", "MethodCall") and call_name(n) == rec.path]
     for j in calls:
         if "fresh" in known_state(A, T, j):
             R.holds("R13-a", "guard:skips", "a visited file is skipped (the recursive call is only reached for a file that was not visited)", loc=rec.loc())
@@ -433,6 +475,33 @@ def r13a(P, R):
 
 
 # ------------------------------------------------------------------------------------------------------------- R13-b
+def return_leaves(fn):
+    """the expressions whose value a function can return: operands of `return` and the tail expression, with `if`/`match`/blocks
+    opened up into their branches"""
+    roots = [n["e"] for n in fn.walk() if n.get("k") == "Ret" and "e" in n and "desugar" not in (n.get("x") or "")]
+    body = fn.body
+    roots.append(body)
+    out = []
+    while roots:
+        e = strip(roots.pop())
+        if e is None:
+            continue
+        k = e.get("k")
+        if k == "BlockExpr":
+            if "tail" in e["b"]:
+                roots.append(e["b"]["tail"])
+        elif k == "If":
+            roots.append(e.get("then"))
+            roots.append(e.get("else"))
+        elif k == "Match" and e.get("src") == "Normal":
+            roots.extend(a["body"] for a in e["arms"])
+        elif k in ("Ret", "Continue", "Break") or e.get("t") == "!":
+            continue
+        else:
+            out.append(e)
+    return out
+
+
 def r13b(P, R):
     A = anchors(P)
     rec, T, pv = A.rec, A.T, A.pv
@@ -460,13 +529,36 @@ def r13b(P, R):
         ok = any(("param", p) in a0 for p in A.importer) and has_field(a1, A.import_adt, "path")
         R.check("R13-b", "relative-to-importer", ok, "import paths are resolved relative to the importing file",
                 "resolve_relative_path is not called with (importing file, import.path)", loc=rec.loc())
+    # how keys are compared: `Path`/`PathBuf` keys compare component-wise (redundant separators and `.` do not matter); keys that
+    # are the *text* of a path are only equal for one spelling, so every value resolve_relative_path returns must then have passed
+    # through the normaliser — its own sibling returns show which function that is
+    textual = sorted(k for k in A.key_types if "std::path::Path" not in k)
+    if not textual:
+        R.holds("R13-b", "key-canonical", "visited keys are path values (compared component-wise)", loc=rec.loc())
+    else:
+        rrp = P.fn("relative_path::resolve_relative_path", required=False)
+        leaves = return_leaves(rrp) if rrp is not None else []
+        rp = Prov(rrp) if rrp is not None else None
+        through = [sorted(x[1] for x in rp.atoms(e) if x[0] == "call" and x[1] in P.fns and P.fns[x[1]].crate == rrp.crate and x[1] != rrp.path)
+                   for e in leaves]
+        if not leaves or not any(through):
+            R.undecided("R13-b", "key-canonical", "visited keys are texts (%s); how resolve_relative_path normalises its results is not recognised"
+                        % textual, loc=rec.loc())
+        elif all(through):
+            R.holds("R13-b", "key-canonical", "visited keys are texts of paths that all pass through %s" % short(through[0][0]), loc=rec.loc())
+        else:
+            norm_fn = short(next(t for t in through if t)[0])
+            R.violated("R13-b", "key-canonical",
+                       "the visited set is keyed by the text of the resolved path (%s), but resolve_relative_path returns a value that did not "
+                       "pass through %s on %d of its %d return paths (the other returns do): two spellings of one file (`/p//x`, `/p/./x`, `/p/x`) "
+                       "get different keys, so a file reached through both is expanded once per spelling and its fragments are duplicated"
+                       % (textual, norm_fn, sum(1 for t in through if not t), len(through)), loc=rrp.loc())
     # the recursive call passes the imported file's own path and document
     for c in T.walk():
-        if c.get("k") == "Call" and call_name(c) == rec.path:
+        if c.get("k") in ("Call", "MethodCall") and call_name(c) == rec.path:
             a = set()
-            for i, x in enumerate(c["args"]):
-                if i not in (A.vis_idx, A.defs_idx):
-                    a |= pv.deep_atoms(x)
+            for x in c["args"]:
+                a |= pv.deep_atoms(x)
             ok = has_call(a, "resolve_relative_path") and has_call(a, "OperationResolver::resolve")
             R.check("R13-b", "recursion-root", ok, "recursion continues from the imported file (its path and its document)",
                     "the recursive call is not rooted at the imported file", loc=rec.loc())
@@ -617,7 +709,7 @@ def r13c(P, R):
                 for j in errs:
                     a = guard_atoms(pv, guards_of(T, j, stop=body))
                     from_imported = has_call(a, "OperationResolver::resolve") and has_field(a, "nitrogql_ast::operation::OperationDocument", "definitions")
-                    from_acc = ("param", A.defs_name) in a
+                    from_acc = has_defs(A, a)
                     if from_imported and not from_acc:
                         R.holds("R13-c", "missing-name-source", "a requested name is missing iff the imported file does not define it", loc=loc)
                     elif from_imported:
@@ -637,7 +729,7 @@ def r13c(P, R):
             continue
         conds = [g["e"] for g in guards_of(T, j) if g["kind"] == "cond"]
         conds += [y["args"][0] for y in subnodes(acc[j][0]) if y.get("k") == "MethodCall" and y["method"] == "filter" and y["args"]]
-        if any(("param", A.defs_name) in pv.atoms(c) for c in conds):
+        if any(has_defs(A, pv.atoms(c)) for c in conds):
             continue
         (unguarded if weakened else unknown).append(acc[j][0]["method"])
     if unguarded:
@@ -682,7 +774,8 @@ def r13d(P, R):
             roots |= {pv.params[b["local"]] for b in subnodes(p) if b.get("k") == "Binding" and b["local"] in pv.params}
     marks = [c for c in E.walk() if is_vis(A, c, MARKS) and c["args"]]
     # ... or the collection handed to the traversal is created with the root in it (`vec![root]`, `HashSet::from([root])`, ..)
-    handed = [c["args"][A.vis_idx] for c in E.walk() if c.get("k") == "Call" and call_name(c) == rec.path and len(c["args"]) > A.vis_idx]
+    handed = [a for c in E.walk() if c.get("k") in ("Call", "MethodCall") and call_name(c) == rec.path
+              for a in ([c["recv"]] if c.get("k") == "MethodCall" else []) + c["args"] if peel_ty(a.get("t")).strip() in A.vts]
     # ... or the traversal itself marks the file it is called for (its own path, not the resolved path of an import)
     own = [c for c in A.T.walk() if is_vis(A, c, MARKS) and c["args"] and any(("param", p) in A.pv.atoms(c["args"][0]) for p in A.importer)
            and not has_call(A.pv.atoms(c["args"][0]), "resolve_relative_path")]
@@ -706,7 +799,7 @@ def r13d(P, R):
            and EXDEF in norm(c.get("recv_ty", "") or "")]
     for c in A.T.walk():
         if c.get("k") == "MethodCall" and c["method"] in IN_PLACE and ("Vec<" + EXDEF) in norm(c.get("recv_ty", "") or "") \
-                and ("param", A.defs_name) in A.pv.atoms(c["recv"]):
+                and has_defs(A, A.pv.atoms(c["recv"])):
             bad.append(c["method"])
     R.check("R13-d", "no-dedup-hacks", not bad, "definitions are never removed/reordered after being appended",
             "definitions list is post-processed with %s" % bad, loc=rec.loc())
@@ -747,15 +840,27 @@ def r13e(P, R):
     R.floor("R13-e", "existing-entry removal", len(removes), 1)
     for c in removes:
         a = pv.deep_atoms(c["args"][0])
-        scans = any(x[0] == "call" and (x[1].endswith("::position") or x[1].endswith("::find") or x[1].endswith("::rposition")
-                                        or x[1].endswith("Iterator::any") or x[1].endswith("::find_map") or "hash::map::HashMap" in x[1]
-                                        or "btree::map::BTreeMap" in x[1]) for x in a)
+        scans = any(x[0] == "call" and x[1].split("::")[-1] in ("position", "find", "rposition", "any", "find_map") for x in a)
         iterates = any(x[0] == "call" and (x[1].endswith("slice::iter") or x[1].endswith("::iter") or x[1].endswith("into_iter")
-                                           or x[1].endswith("::iter_mut") or "::map::" in x[1]) for x in a)
+                                           or x[1].endswith("::iter_mut")) for x in a)
+        stored = sorted({short(x[1]) for x in a if x[0] == "call" and ("hash::map::HashMap" in x[1] or "btree::map::BTreeMap" in x[1])})
         trunc = sorted(x[1].split("::")[-1] for x in a if x[0] == "call" and x[1].split("::")[-1] in
                        ("last", "first", "checked_sub", "len", "take", "skip", "nth", "rev", "last_mut", "first_mut", "saturating_sub"))
-        if scans and iterates and not trunc:
+        if scans and iterates and not trunc and not stored:
             R.holds("R13-e", "merge-scans-all", "an earlier import of the same path is searched among all collected imports", loc=f0.loc())
+        elif stored and not scans:
+            # an index kept in a map across `remove` on the vector it points into: removing an element shifts every later one
+            reindex = sorted({x["method"] for x in f.walk() if x.get("k") == "MethodCall" and ("HashMap<" in norm(x.get("recv_ty") or "") or
+                              "BTreeMap<" in norm(x.get("recv_ty") or "")) and x["method"] in
+                              ("values_mut", "iter_mut", "clear", "retain", "drain", "extend", "get_mut", "entry", "and_modify")})
+            if reindex:
+                R.undecided("R13-e", "merge-scans-all", "the entry to merge with is located through an index kept in a map (%s), which is also "
+                            "updated with %s; whether it stays valid across `remove` is not decided" % (stored, reindex), loc=f0.loc())
+            else:
+                R.violated("R13-e", "merge-scans-all",
+                           "the index given to `%s` on the list of imports comes from a map (%s) filled when the entry was pushed, but `%s` "
+                           "shifts every later entry and the map is never re-indexed: the stored indices go stale, a later merge removes "
+                           "another file's entry (its targets are stolen, its import disappears)" % (c["method"], stored, c["method"]), loc=f0.loc())
         elif trunc and not scans:
             R.violated("R13-e", "merge-scans-all",
                        "the index of the import entry to merge with is not found by scanning all collected imports (position/find over "
@@ -806,34 +911,67 @@ def r13e(P, R):
     aW, aS = enum_roles(acc_adt)
     tW, tN = enum_roles(nxt_adts[0])
     diag = {v for p, a in P.adts.items() if p.startswith(SEM + "operation_extension_resolver") and a.kind == "Enum" for v in a.variant_names()}
-    tables = []
-    for m in f.walk():
-        if m.get("k") != "Match" or m.get("src") != "Normal" or strip(m["scrut"]).get("k") != "Tup" or len(strip(m["scrut"])["es"]) != 2:
-            continue
-        tys = [peel_ty(e.get("t")).strip().split("<")[0] for e in strip(m["scrut"])["es"]]
-        if sorted(tys) == sorted([acc_adt.path, nxt_adts[0].path]):
-            tables.append((m, tys.index(acc_adt.path)))
-    R.floor("R13-e", "match over (accumulated targets, next target)", len(tables), 1)
+    def table_value(m, av, tv):
+        """abstract value of the scrutinee of `m` when it is the accumulated targets, the next target, or a pair of them"""
+        e = strip(m["scrut"])
+        def one(x):
+            t = peel_ty(x.get("t")).strip().split("<")[0]
+            return av if t == acc_adt.path else (tv if t == nxt_adts[0].path else None)
+        if e.get("k") == "Tup":
+            vs = tuple(one(x) for x in e["es"])
+            return vs if any(v is not None for v in vs) else None
+        return one(e)
 
-    def outcome(m, acc_first, acc, nxt):
-        arms = may_match(m, (acc, nxt) if acc_first else (nxt, acc))
-        if not arms:
-            return None
-        succ, errs = set(), set()
-        for arm in arms:
-            for x in subnodes(arm["body"]):
-                d = norm(x.get("def") or "") if x.get("k") == "Path" and str(x.get("dk", "")).startswith("Ctor") else ""
+    def is_table(m):
+        return m.get("k") == "Match" and m.get("src") == "Normal" and not m.get("x") and table_value(m, "a", "t") is not None
+
+    def kinds(m):
+        v = table_value(m, "a", "t")
+        return set(v) - {None} if isinstance(v, tuple) else {v}
+    roots, covered = [], set()
+    for m in f.walk():
+        if is_table(m) and id(m) not in covered:
+            inner = [x for x in subnodes(m) if x is not m and is_table(x)]
+            covered |= {id(x) for x in inner}
+            if set().union(kinds(m), *[kinds(x) for x in inner]) == {"a", "t"}:
+                roots.append(m)
+    R.floor("R13-e", "match over (accumulated targets, next target)", len(roots), 1)
+
+    def outcome(root, av, tv):
+        """abstract evaluation of the decision table for one (accumulated kind, next kind): which accumulated kinds can result,
+        which diagnostics can be constructed — nested matches are followed for the given kinds, guards fork"""
+        succ, errs, dead = set(), set(), [False]
+
+        def walk(x):
+            if isinstance(x, list):
+                for y in x:
+                    walk(y)
+                return
+            if not isinstance(x, dict):
+                return
+            if is_table(x):
+                arms = may_match(x, table_value(x, av, tv))
+                if not arms:
+                    dead[0] = True
+                for arm in arms:
+                    walk(arm["body"])
+                return
+            if x.get("k") == "Path" and str(x.get("dk", "")).startswith("Ctor"):
+                d = norm(x.get("def") or "")
                 if d.rsplit("::", 1)[0] == acc_adt.path:
                     succ.add("Wildcard" if d.split("::")[-1] == aW else "Specific")
-                if x.get("k") == "Struct" and "rest" not in x and "variant" in x:
-                    errs.add(norm(x["variant"]).split("::")[-1])
-        return succ, errs
+            if x.get("k") == "Struct" and "rest" not in x and "variant" in x:
+                errs.add(norm(x["variant"]).split("::")[-1])
+            for kk, v in x.items():
+                if isinstance(v, (dict, list)) and kk not in ("pat", "params"):
+                    walk(v)
+        walk(root)
+        return None if dead[0] and not succ and not errs else (succ, errs)
 
     def rejected(s, e, name):
         # no new accumulated value, and the expected diagnostic (any diagnostic, if that name no longer exists)
         return not s and (name in e or (bool(e) and name not in diag))
-    for m, ai in tables:
-        first = ai == 0
+    for m in roots:
         expect = [
             ("Wildcard", "Wildcard", aW, tW, lambda s, e: rejected(s, e, "WildcardOnlyOnce"), "is rejected (WildcardOnlyOnce)"),
             ("Wildcard", "Name", aW, tN, lambda s, e: rejected(s, e, "WildcardCannotBeCombinedWithSpecific"), "is rejected (WildcardCannotBeCombinedWithSpecific)"),
@@ -843,7 +981,7 @@ def r13e(P, R):
              "is accepted when no name was given before and rejected otherwise"),
         ]
         for a, b, av, bv, pred, what in expect:
-            got = outcome(m, first, av, bv)
+            got = outcome(m, av, bv)
             key = "table:%s+%s" % (a, b)
             if got is None:
                 R.undecided("R13-e", key, "no arm of the table matches (%s, %s)" % (a, b), loc=f0.loc())
@@ -860,14 +998,17 @@ def r13e(P, R):
 
 RULES = [("R13-a", r13a), ("R13-b", r13b), ("R13-c", r13c), ("R13-d", r13d), ("R13-e", r13e)]
 EXPLANATION = (
-    "Structural necessary conditions of import resolution, decided on the traversal located by role (the function receiving the "
-    "accumulated definitions and a mutable collection of paths) with its helpers inlined: (R13-a) the recursive call is dominated "
+    "Structural necessary conditions of import resolution, decided on the traversal located by role (the directly recursive "
+    "function that resolves import paths and asks the OperationResolver; its shared state — visited collection, accumulated "
+    "definitions — being `&mut` parameters or fields of a context struct) with its helpers inlined: (R13-a) the recursive call is dominated "
     "by a membership test on and an insertion into the visited set (MIR dominators), is only reached for a file known to be fresh, "
     "and the visited set is never shrunk; (R13-b) contains/insert/resolve are keyed by resolve_relative_path(importer, import.path) "
-    "and recursion continues from the imported file; (R13-c) targets are honoured on every path through the loop, each kind of "
+    "and recursion continues from the imported file; when the visited keys are texts rather than path values every return of "
+    "resolve_relative_path passes through the normaliser its sibling returns use; (R13-c) targets are honoured on every path through the loop, each kind of "
     "import appends, only fragments, specific ones by name, and dangling file / missing name produce their diagnostics under "
     "conditions on the resolver's answer / the imported document; (R13-d) the root is marked visited, the result starts from the "
-    "root's own definitions; (R13-e) import lines for one path are merged by scanning all collected imports, and the "
+    "root's own definitions; (R13-e) import lines for one path are merged by scanning all collected imports (not by a positional guess, not by an index "
+    "stored in a map across `remove`), and the "
     "wildcard/specific transition table has the four expected rows. Not decided: result = reference closure for all graphs.")
 ASSUMPTIONS = ["std::collections::HashSet / BTreeSet semantics", "nitrogql_utils::resolve_relative_path normalises paths (C20, not claimed)"]
 
